@@ -1149,7 +1149,7 @@ class Engine:
             c = argv[0]
             if not is_c(c) and not isinstance(c, (PV, Undef)): self.must(st, c == 1, 'assume-violated', "llvm.assume condition can be false")
             return
-        if name.startswith('llvm.expect'): fr.env[dst] = argv[0]; return
+        if name.startswith('llvm.expect') or name.startswith('llvm.ptr.annotation') or name.startswith('llvm.launder') or name.startswith('llvm.strip'): fr.env[dst] = argv[0]; return
         if name == 'llvm.stacksave': fr.env[dst] = NULL; return
         if name == 'llvm.eh.typeid.for': fr.env[dst] = self.ti_id(argv[0]); return
         if name.startswith(('llvm.memcpy', 'llvm.memmove')):
@@ -1166,7 +1166,8 @@ class Engine:
             if not is_c(rel): raise Unsupported("symbolic relative table entry")
             fr.env[dst] = self.int2ptr((self.addr(p) + sgn(rel, 32)) & mask(64)); return
         base = name.split('.')[1]
-        w = int(name.rsplit('.i', 1)[1])
+        try: w = int(name.rsplit('.i', 1)[1])
+        except (IndexError, ValueError): raise Unsupported("intrinsic " + name)
         if base in ('umax', 'umin', 'smax', 'smin'):
             x, y = argv[0], argv[1]
             if isinstance(x, Undef) or isinstance(y, Undef): fr.env[dst] = x if isinstance(x, Undef) else y; return
